@@ -5,7 +5,7 @@ from harness import ktime
 ASSUMPTIONS = [
     "np.sin is not modelled: sinusoidal / daily-fluctuation values are checked by the direct oracle (math.sin) only; the "
     "Lean model covers their index through fromList",
-    "the daily-volume clause is stated for duplicate-free hours within 0..23 (finding D12 otherwise)",
+    "a daily volume over a repeated hour or an hour outside 0..23 is refused (finding D12, repaired: fix commit in /repo)",
     "spans are whole hours (written in days when a whole number of days)",
 ]
 TRUSTED = ["pandas date_range / Timestamp calendar fields (compared with the Lean calendar on every run)"]
@@ -24,7 +24,7 @@ def run(ctx, intensify=False):
         res.samples += o["samples"]
         for k, v in o["fns"].items():
             fns[k] = fns.get(k, 0) + v
-    # known-finding witnesses (D12): duplicate hours, an hour outside 0..23
+    # witnesses of the repaired finding D12 (duplicate hours, an hour outside 0..23): reported again if it ever returns
     for hours in ([8, 8, 9], [5, 24]):
         c = {"fn": "daily", "start": [2025, 1, 1, 0], "unit": "dimensionless", "span_hours": 72, "volume": 120.0,
              "hours": hours, "witness": True}
